@@ -10,7 +10,7 @@ SPEC = {
     "allowed_axioms": _m.ALLOWED,
     "harness_pkg": "hx_query",
     "harness_bin": "c22",
-    "n": {"quick": 660, "thorough": 11000},
+    "n": {"quick": 900, "thorough": 15000},
     "harness_timeout": {"quick": 600, "thorough": 3000},
     "trusted_base": [
         "Coq 8.16.1 kernel + vm_compute (no native_compute); coqchk re-check in the thorough tier",
@@ -33,7 +33,7 @@ SPEC = {
                 "them among the rows where a following LIMIT cut them off; repaired by one fix commit (5cbdabf), the model follows the repaired "
                 "code and the old witnesses run first in the harness. Remaining known finding K-C22-exists (an error inside an EXISTS { } "
                 "subquery becomes NULL and the row is dropped), with a refutation witness. Correspondence and direct search: generated queries "
-                "in which exactly one row raises a runtime error, in 22 operator contexts; oracle: the engine must report an error when the "
+                "in which exactly one row raises a runtime error, in 30 operator contexts (incl. multi-aggregate projections with count(*) before the failing aggregate and ORDER BY keys that are not projected), with 1, 2 or several input rows and the failing row first, last or only; oracle: the engine must report an error when the "
                 "failing row is consumed; the faithful model must predict the engine's outcome.",
         "design_ref": "DESIGN.md §5 C22, §8",
         "level_note": "Trusted: Coq kernel; hand-written operator model tied to the engine by sampled correspondence. Operators outside the "
